@@ -141,6 +141,16 @@ fn judge(ctx: &mut Ctx, family: &str, target: &Target, bytes: &[u8], conf: &Conf
         Target::Untyped(..) => "untyped",
         Target::NoType => "from_bytes",
     };
+    // the interpreter lane is ~10^4 times slower: bounded inputs and quotas there (the native lanes cover the rest)
+    let mut conf_m = conf.clone();
+    if ctx.lane == "M" {
+        if bytes.len() > 4096 {
+            ctx.count("excluded:miri-lane-input-over-4096-bytes");
+            return;
+        }
+        conf_m.dq = Some(conf.dq.unwrap_or(2000).min(2000));
+    }
+    let conf = &conf_m;
     let obs = observe(target.clone(), bytes.to_vec(), conf.clone());
     let input = || json!({"family": family, "target": tname, "bytes": hex(bytes), "len": bytes.len(), "conf": format!("{conf:?}")});
     ctx.count(&format!("outcome:{}", obs.outcome));
@@ -275,8 +285,9 @@ pub fn run(ctx: &mut Ctx) {
     });
     ctx.cases("pending-args-times-optionals", 0.05, |ctx, rng| {
         // table [opt nat8, vec #0]; args = [vec, M x null]; N present optional elements
-        let m = *rng.pick(&[0usize, 10, 1000, 10_000]);
-        let n = *rng.pick(&[10usize, 1000, 20_000, 50_000]);
+        let small = ctx.lane == "M";
+        let m = if small { *rng.pick(&[0usize, 10]) } else { *rng.pick(&[0usize, 10, 1000, 10_000]) };
+        let n = if small { *rng.pick(&[10usize, 100]) } else { *rng.pick(&[10usize, 1000, 20_000, 50_000]) };
         let mut b = b"DIDL\x02\x6e\x7b\x6d\x00".to_vec();
         b.extend(crate::model::leb::leb_u64(1 + m as u64));
         b.push(0x01);
